@@ -230,11 +230,27 @@ def law_pipeline(run, law, modes, nwords, classify=None):
             except OSError: pass
 
 
+def classify_c06(m):
+    import re
+    parts = _rule_parts(m.get("rule", ""))
+    if not parts:
+        return None
+    if parts["inp"] in ("*", "\u2205"):
+        for env in parts["ctx"].replace(":{", "").replace("}:", "").split(","):
+            if "_" in env:
+                b, a = env.split("_", 1)
+                if b.strip().rstrip("_ ").endswith("$") or a.strip().lstrip("_ ").startswith("$"):
+                    return "C06-KF1"
+    if re.search(r"\{[^}]*%[^}]*\}", parts["inp"]) and len(parts["inp"].split()) > 1:
+        return "C06-KF2"
+    return None
+
+
 def c06(run):
     run.assumptions += TRUSTED + ["the planted literal q never occurs in generated words (inventory of harness/src/laws.rs)"]
     mc_job(run, "MC_Scan", "mc/MC_Scan.tla", "mc/MC_Scan%s.cfg" % ("_thorough" if run.tier == "thorough" else ""),
            "M: on the reference machine, a rule whose input matches no segment of the word never changes it (NoMatchStutter), exhaustively on the small domain")
-    law_pipeline(run, "C06", ["planted"], 10 if run.tier == "thorough" else 5)
+    law_pipeline(run, "C06", ["planted"], 10 if run.tier == "thorough" else 5, classify_c06)
 
 
 def c14(run):
@@ -257,6 +273,9 @@ def classify_c07(m):
 def c07(run):
     run.assumptions += TRUSTED
     law_pipeline(run, "C07", ["identity"], 10 if run.tier == "thorough" else 5, classify_c07)
+    res = run_tlc("GEN_C07ctx", "gen/GEN_C07ctx.tla", "gen/GEN_C07ctx_%s.cfg" % run.tier, env=run.known_env(), consumer=[HARNESS, "replay", "C03"], timeout=3000)
+    run.add_tlc("GEN_C07ctx", res, "S->I: rules `A > B / X=1 _ 1` over 4 targets x 4 outputs x 5 binders x every word <= %d segments in every syllabification, and `%% > [tone: 7] / %%=1 _ 1` over "
+                                   "every 3-syllable word of a pool of 16 syllables; the reference result (fires exactly between identical bundles) replayed on the real interpreter" % (5 if run.tier == "thorough" else 4))
 
 
 def c08(run):
